@@ -146,6 +146,42 @@ LIMITS = [{}, {}, {},
           {'callstack_limit': 129}, {'stack_max_items': 1025}, {'stack_max_item_size': 1025}]
 
 
+# A lock is often not the outermost script: it is committed to by a script-hash lock,
+# a taproot output (script path), a leaf of a Merklized script tree, or it is a
+# graftroot surrogate.  With the matching reveal appended to the unlocking script,
+# every such wrapper must be transparent: same verdict as the bare lock.
+WRAPS = ['none'] * 6 + ['scripthash', 'taproot', 'merkle_first', 'merkle_last', 'merkle_balanced',
+                        'graftroot']
+_WKEY = bytes(range(100, 132))
+
+
+def wrap_lock(lock, how):
+    """-> (outer lock, bytes to append to the unlocking script).  Builders only; call it
+    outside the validator's clock call (some of them execute comptime blocks)."""
+    from .seams import T
+    if how == 'none':
+        return lock, b''
+    if how == 'scripthash':
+        return T.make_scripthash_lock(lock), T.make_scripthash_witness(lock).bytes
+    if how == 'taproot':
+        pk = pubkey_of_seed(_WKEY)
+        return T.make_taproot_lock(pk, lock), T.make_taproot_witness_scriptspend(pk, lock).bytes
+    if how == 'graftroot':
+        return (T.make_graftroot_lock(pubkey_of_seed(_WKEY)),
+                T.make_graftroot_witness_surrogate(_WKEY, lock).bytes)
+    others = ['false', 'push x01 pop0 false']
+    if how == 'merkle_first':
+        outer, unl = T.make_merklized_script_prioritized([lock] + others)
+        return outer, unl[0].bytes
+    if how == 'merkle_last':
+        outer, unl = T.make_merklized_script_prioritized(others + [lock])
+        return outer, unl[2].bytes
+    if how == 'merkle_balanced':
+        outer, unl = T.make_merklized_script_balanced([others[0], lock, others[1]])
+        return outer, unl[1].bytes
+    raise ValueError(how)
+
+
 def in_form(script, how):
     from .seams import T
     if how == 'bytes':
